@@ -1,5 +1,6 @@
 import ArgMapper.Props.C05
 import ArgMapper.Props.C08
+import ArgMapper.Proofs.RedefStatic
 /-!
 # C08 (continued) — Redefine succeeds whenever every target parameter is permitted by the input filter
 
@@ -43,6 +44,14 @@ theorem succeeds_when_permitted (e : TypeEnv) (ht : ImplTrans e)
     let cgr := callGraph {} e b funcs target true fin
     let r := redefine (redefCtx e b funcs target fin outCount) cgr target fout fuel (initSt cgr.cg [] orc)
     (∃ ls, r = .ok ls) ∨ (∃ w, r = .badOracle w) := by
-  sorry
+  intro cgr r
+  have H : Complete.Hyps e b funcs target := ⟨hc, hsf.1, hsf.2.1, hsf.2.2, hsi, htk, hkey, hwf⟩
+  have hperm' : ∀ l ∈ target.input.labels, RedefineInputs.passesF e fin l.ty = true := by
+    intro l hl
+    have := hperm l hl
+    unfold passes at this
+    unfold RedefineInputs.passesF
+    exact this
+  exact RedefC.redefine_succeeds H ht hnames fin fout hperm' hout outCount fuel hfuel orc
 
 end ArgMapper.C08
